@@ -1433,6 +1433,20 @@ def std_model(I, p, fr, t, args):
             and len({type(x_) for x_ in d0.items}) <= 1:
         d0.items.sort()
         return Adt(None, None, {})
+    if n == "retain" and isinstance(d0, Vec) and len(args) > 1 and c.startswith("alloc::vec") and isinstance(I.deref(args[1]), FnVal):
+        keep = []
+        for it_ in d0.items:
+            holder_ = Frame({"locals": [{"ty": "elem"}], "blocks": [], "key": "<retain>"}, [])
+            holder_.locals = [it_]
+            r_ = I.deref(I.call_value(I.deref(args[1]), [Ref(holder_, 0, [])], getattr(fr, "depth", 0)))
+            if r_ is True:
+                keep.append(it_)
+            elif r_ is not False:
+                keep = None
+                break
+        if keep is not None:
+            d0.items[:] = keep
+            return Adt(None, None, {})
     if n == "truncate" and isinstance(d0, Vec) and len(args) > 1 and isinstance(I.deref(args[1]), int) and c.startswith("alloc::vec"):
         del d0.items[I.deref(args[1]):]
         return Adt(None, None, {})
